@@ -238,6 +238,34 @@ func (oa *orderAnalysis) unorderedSource(v ssa.Value, seen map[ssa.Value]bool) (
 		if funcName(x.Parent()) == "MarshalResource" && isStrSlice(x.Type()) {
 			return "the field selection", true
 		}
+		// a list parameter of a small helper: unordered when some call site
+		// passes an unordered list that it did not sort first
+		if g := x.Parent(); g != nil && smallHelper(g) && g.Parent() == nil {
+			idx := -1
+			for i, q := range g.Params {
+				if q == x {
+					idx = i
+				}
+			}
+			if idx >= 0 {
+				for _, caller := range oa.p.Funcs {
+					var hit string
+					eachInstr(caller, func(ins ssa.Instruction) {
+						c, ok := ins.(*ssa.Call)
+						if !ok || c.Common().StaticCallee() != g || idx >= len(c.Common().Args) {
+							return
+						}
+						a := c.Common().Args[idx]
+						if w, un := oa.unorderedSource(a, seen); un && !oa.sortedBefore(a, c.Block(), c) {
+							hit = w
+						}
+					})
+					if hit != "" {
+						return hit + " (passed to " + funcName(g) + ")", true
+					}
+				}
+			}
+		}
 	case *ssa.Lookup:
 		if isStrSlice(x.Type()) {
 			return "a field-selection / relationship-data list (" + shorten(pathOf(x, 0)) + ")", true
@@ -1341,7 +1369,7 @@ func checkC11Writes(p *Prog, r *Report, h *Heap) {
 			case m.Kind == "sort":
 				seenSort[m.Fn] = true
 				r.ok("C11.write-inventory", key, p.pos(m.Pos), "canonicalising sort (order of an order-irrelevant list)")
-			case m.Kind == "mapupdate" && m.Fn == "MarshalDocument" && strings.HasPrefix(rootOf(m.Loc), "P0") && strings.Contains(m.Loc, ".Links"):
+			case m.Kind == "mapupdate" && e == "MarshalDocument" && strings.HasPrefix(rootOf(m.Loc), "P0") && strings.Contains(m.Loc, ".Links") && strings.Contains(m.Desc, `"self"`):
 				r.ok("C11.write-inventory", key, p.pos(m.Pos), "the document's own links map (self), not read from resources or URL")
 			default:
 				via := m.Via
